@@ -114,7 +114,9 @@ class LeafNode(TreeNode):
 
     def __eq__(self, other):
         if isinstance(other, LeafNode):
-            return self.object == other.object
+            # In Python, 1 == 1.0 == True; as document values these are different (a number vs. a boolean, `1` vs. `1.0`),
+            # and they must not compare equal here: containers use this to decide that nothing inside them changed
+            return type(self.object) is type(other.object) and self.object == other.object
         else:
             return self.object == other
 
